@@ -49,6 +49,10 @@ def make_playback_copy(scratch, spec):
     os.makedirs(base)
     shutil.copytree(os.path.join(VERIF, "kani"), os.path.join(base, "kani"),
                     ignore=shutil.ignore_patterns("target"))
+    if kanirun.REPO != "/repo":
+        ct = os.path.join(base, "kani", "Cargo.toml")
+        t = open(ct).read().replace('path = "/repo"', 'path = "%s"' % kanirun.REPO)
+        open(ct, "w").write(t)
     shutil.copytree(os.path.join(VERIF, "incrate"), os.path.join(base, "incrate"))
     return base
 
@@ -132,7 +136,7 @@ def replay_failure(scratch, spec, logdir):
 
 
 def store_replay(prop, spec, testname, testcode, what):
-    d = os.path.join(VERIF, "replays", prop)
+    d = os.path.join(os.environ.get("VERIF_OUT", VERIF), "replays", prop)
     os.makedirs(d, exist_ok=True)
     p = os.path.join(d, "%s.%s.rs" % (spec["name"], spec["cfg"]))
     with open(p, "w") as f:
@@ -329,7 +333,8 @@ def main():
 
 
 def write_evidence(prop, tier, seed, specs, e2, meta, wall, nviol, inconclusive, notes, known):
-    os.makedirs(os.path.join(VERIF, "evidence"), exist_ok=True)
+    outdir = os.environ.get("VERIF_OUT", VERIF)
+    os.makedirs(os.path.join(outdir, "evidence"), exist_ok=True)
     hs = []
     evaluations = 0
     nontrivial = 0
@@ -385,7 +390,7 @@ def write_evidence(prop, tier, seed, specs, e2, meta, wall, nviol, inconclusive,
         "wall_s": round(wall, 1),
         "violations": nviol,
     }
-    with open(os.path.join(VERIF, "evidence", prop + ".json"), "w") as f:
+    with open(os.path.join(outdir, "evidence", prop + ".json"), "w") as f:
         json.dump(ev, f, indent=1)
 
 
